@@ -137,35 +137,49 @@ func rulePutIsolation(c *Ctx, r *R) {
 	if overwrite == 0 {
 		r.violated("tree.btree.Put|overwrite-path", put.Pos(), "Put has no pure-overwrite path")
 	}
-	// read-only functions
-	ro := map[string]bool{}
-	var roFns []*ssa.Function
-	for _, n := range []string{"btree.Get", "btree.Contains", "btree.First", "btree.Last", "btree.Len", "btree.searchNode", "leftmostLeaf", "rightmostLeaf", "cursor.find", "node.leaf", "node.full"} {
-		if f := c.fn(treeRel + "." + n); f != nil {
-			ro[f.Name()] = true
-			roFns = append(roFns, f)
+	// read-only functions: the lookups and everything they (transitively) call inside the package
+	var readOnly func(f *ssa.Function, seen map[*ssa.Function]bool) string
+	readOnly = func(f *ssa.Function, seen map[*ssa.Function]bool) string {
+		if seen[f] {
+			return ""
 		}
-	}
-	for _, f := range roFns {
+		seen[f] = true
 		bad := ""
 		instrs(f, func(b *ssa.BasicBlock, i int, in ssa.Instruction) {
+			if bad != "" {
+				return
+			}
 			switch x := in.(type) {
 			case *ssa.Store:
 				if _, isLocal := x.Addr.(*ssa.Alloc); !isLocal {
-					bad = "stores to " + path(x.Addr)
+					bad = f.Name() + " stores to " + path(x.Addr)
 				}
 			case *ssa.MapUpdate, *ssa.Send, *ssa.Go:
-				bad = "has a side effect"
+				bad = f.Name() + " has a side effect"
 			case *ssa.Call:
 				if cal := staticCallee(&x.Call); cal != nil {
-					if cal.Pkg == tp && !ro[cal.Name()] {
-						bad = "calls " + cal.Name() + ", which is not read-only"
+					if cal.Pkg == tp && cal.Blocks != nil {
+						if sub := readOnly(cal, seen); sub != "" {
+							bad = "calls " + cal.Name() + ": " + sub
+						}
 					}
 				} else if _, isB := x.Call.Value.(*ssa.Builtin); !isB && !strings.HasSuffix(path(x.Call.Value), ".compare") {
-					bad = "calls " + path(x.Call.Value)
+					bad = f.Name() + " calls " + path(x.Call.Value)
 				}
 			}
 		})
+		return bad
+	}
+	for _, n := range []string{"btree.Get", "btree.Contains", "btree.First", "btree.Last", "btree.Len", "btree.searchNode", "leftmostLeaf", "rightmostLeaf", "cursor.find", "node.leaf", "node.full"} {
+		f := c.fn(treeRel + "." + n)
+		if f == nil {
+			if n == "node.leaf" || n == "node.full" {
+				continue
+			}
+			r.undecided(treeRel+"."+n+"|missing", token.NoPos, "anchor not found")
+			continue
+		}
+		bad := readOnly(f, map[*ssa.Function]bool{})
 		r.ok(bad == "", c.nameOf(f)+"|read-only", f.Pos(), "a lookup must not write shared memory (e.g. a memoised search position): "+bad)
 	}
 }
